@@ -7,9 +7,12 @@
 //! mod    := catch stages bud  progs progs progs  lp(end)     catch odd: Stereotyp.on_panic_catch; 1 + stages mod 3 stages;
 //!                                                bit 1+id of catch: task id is handed to current().join() instead of try_join();
 //!                                                bits 4..7 of catch: the other four Stereotyp flags (on_panic_drop, on_panic_restart,
-//!                                                on_panic_drop_submodules, on_panic_inform_parent) -- set, never read by des
+//!                                                on_panic_drop_submodules, on_panic_inform_parent) -- set, never read by des;
+//!                                                bit 8 of catch: Module::reset calls schedule_in (bit 9 clear) / send_in (bit 9 set) right
+//!                                                after it has logged the reset: buf_process holds the event buffer's lock while it
+//!                                                runs reset, so the library panics ("Could not lock mutex on single thread")
 //! progs  := n lp(prog){n}                        start programs (by incarnation), message programs (by payload), tasks
-//! prog   := (op a b c)*                          op%16: 0 log c | 1 send_in(gate a odd ? "far" : "out", b ns, payload c)
+//! prog   := (op a b c)*                          op%20: 0 log c | 1 send_in(gate a odd ? "far" : "out", b ns, payload c)
 //!                                                | 2 schedule_in(b ns, payload c) | 3 sleep b ns (tasks) | 4 shutdown()
 //!                                                | 5 shutdow_and_restart_in(b ns) | 6 panic!() | 7 quiet (callbacks)
 //!                                                | 8 / 9 set_stereotyp(on_panic_catch = true / false, the other four flags = a%16)
@@ -24,7 +27,11 @@
 //!                                                  property "p", i.e. while the property's lock is held (index out of bounds, before
 //!                                                  anything is written)
 //!                                                | 15 access the own property "p" again from inside a Prop::update closure: the library's
-//!                                                  own panic "Could not lock mutex on single thread"                 (op%16)
+//!                                                  own panic "Could not lock mutex on single thread"
+//!                                                | 16..19 send(payload c, "pr") with zero delay: gate "pr" of m_i leads to gate "pin" of
+//!                                                  m_{i+1} through a channel whose ChannelProbe panics on every message -- user code
+//!                                                  run by the library under the event buffer's lock (a module that is down panics by
+//!                                                  itself instead: its message would be dropped at its own gate)       (op%20)
 //! inj    := kind m time payload                  kind%3: 0 handle_message_on(m) | 1 add_message_onto(m.out) | 2 ..(m.far)
 //!
 //! Output: 5 numbers per record
@@ -39,6 +46,7 @@
 //!                       code 0 PanicError | 1 JoinError Paniced | 2 JoinError NotFinished | 3 JoinError Tokio (cancelled)
 //!   20 m id inc how     task id of incarnation inc ended: how 0 ran to completion | 1 panics now | 2 future dropped unfinished
 //!   21 m id inc must    task id of incarnation inc spawned and handed to try_join (must 0) / join (must 1)
+//!   22 m 0 0 0          Module::reset of m is about to call schedule_in / send_in (the library panics)
 //!   17 0 0 0 0          separator: the whole simulation is then run a second time in the same process
 //!   18 m 0 0 0          separator: then the variant in which module m falls silent instead of panicking (k/3%5 = m+1)
 use des::net::module::Stereotyp;
@@ -92,6 +100,8 @@ enum Act {
     PropPanic(bool),
     /// re-entrant property access inside a Prop::update closure
     PropReenter,
+    /// zero-delay send through the channel with the panicking probe
+    ProbeSend(u64),
     /// schedule_at(now - (1 + d)) -- the library panics
     SchedPast(u64, u64),
     /// send_at(gate, now - (1 + d)) -- the library panics
@@ -106,6 +116,8 @@ type Prog = Vec<Act>;
 struct ModCfg {
     catch: bool,
     flags: u64,
+    /// Module::reset calls schedule_in (1) / send_in (2); 0: it does not
+    rsend: u64,
     join: u64,
     stages: u64,
     bud: u64,
@@ -117,7 +129,7 @@ struct ModCfg {
 
 fn quads(v: &[u64]) -> Prog {
     v.chunks_exact(4)
-        .map(|c| match c[0] % 16 {
+        .map(|c| match c[0] % 20 {
             0 => Act::Log(c[3]),
             1 => Act::Send(c[1] % 2 == 1, c[2], c[3]),
             2 => Act::Sched(c[2], c[3]),
@@ -133,7 +145,8 @@ fn quads(v: &[u64]) -> Prog {
             12 => Act::RestartPast(c[2]),
             13 => Act::PropRead(c[1]),
             14 => Act::PropPanic(c[1] % 2 == 1),
-            _ => Act::PropReenter,
+            15 => Act::PropReenter,
+            _ => Act::ProbeSend(c[3]),
         })
         .collect()
 }
@@ -154,6 +167,7 @@ fn dec_mod(c: &mut Cur) -> ModCfg {
     let hdr = c.next();
     let catch = hdr % 2 == 1;
     let flags = (hdr / 16) % 16;
+    let rsend = if (hdr >> 8) & 1 == 1 { 1 + ((hdr >> 9) & 1) } else { 0 };
     let join = (hdr / 2) % 8;
     let stages = 1 + c.next() % 3;
     let bud = c.next();
@@ -161,7 +175,7 @@ fn dec_mod(c: &mut Cur) -> ModCfg {
     let msg = blobs(c);
     let tasks = blobs(c);
     let end = quads(&c.take_lp());
-    ModCfg { catch, flags, join, stages, bud, start, msg, tasks, end }
+    ModCfg { catch, flags, rsend, join, stages, bud, start, msg, tasks, end }
 }
 
 /// Send / schedule / shutdown requests draw on the module's budget.  Returns false when the
@@ -222,7 +236,8 @@ fn simple(m: u64, who: u64, a: Act) {
         | Act::SendPast(..)
         | Act::RestartPast(..)
         | Act::PropPanic(..)
-        | Act::PropReenter => {}
+        | Act::PropReenter
+        | Act::ProbeSend(..) => {}
     }
 }
 
@@ -283,7 +298,23 @@ fn locked_panic(a: Act) {
         Act::PropReenter => {
             p.update(|v| *v = current().prop::<u64>("p").expect("prop").or_default().get());
         }
+        Act::ProbeSend(x) => {
+            if act() == 0 {
+                // an inactive module's message is dropped at its own gate and never reaches the channel (at_sim_end of a
+                // module that is down): the script panics itself to keep the action a panic
+                panic!("scripted panic (module inactive)");
+            }
+            send(Message::default().with_content(x), "pr");
+        }
         _ => {}
+    }
+}
+
+/// a channel probe that panics on every message it sees
+struct PanickingProbe;
+impl des::net::channel::ChannelProbe for PanickingProbe {
+    fn on_message_transmit(&mut self, _: &des::net::channel::ChannelMetrics, _: &Message) {
+        panic!("scripted probe panic");
     }
 }
 
@@ -305,7 +336,7 @@ fn run_callback(m: u64, p: &[Act]) {
                 log([11, m, 0, catching(), 0]);
                 past_call(a);
             }
-            Act::PropPanic(..) | Act::PropReenter => {
+            Act::PropPanic(..) | Act::PropReenter | Act::ProbeSend(..) => {
                 log([11, m, 0, catching(), 0]);
                 locked_panic(a);
             }
@@ -372,7 +403,7 @@ async fn run_task(m: u64, id: u64, inc: u64, p: Prog, guard: Guard) {
                 guard.done.set(true);
                 past_call(a);
             }
-            Act::PropPanic(..) | Act::PropReenter => {
+            Act::PropPanic(..) | Act::PropReenter | Act::ProbeSend(..) => {
                 log([11, m, 1 + id, catching(), 0]);
                 log([20, m, id, inc, 1]);
                 guard.done.set(true);
@@ -438,6 +469,15 @@ impl Module for ScriptModule {
         REQ[self.m as usize].store(false, SeqCst);
         SILENT[self.m as usize].store(false, SeqCst);
         log([6, self.m, now(), self.inc, 0]);
+        if self.cfg.rsend != 0 {
+            // user code in Module::reset using the messaging API: buf_process holds the event buffer's lock right now
+            log([22, self.m, 0, 0, 0]);
+            if self.cfg.rsend == 1 {
+                schedule_in(Message::default().with_content(0u64), Duration::from_nanos(1));
+            } else {
+                send_in(Message::default().with_content(0u64), "out", Duration::from_nanos(1));
+            }
+        }
     }
 }
 
@@ -476,6 +516,19 @@ fn simulate(mods: &[ModCfg], inj: &[(u64, u64, u64, u64)]) -> Vec<u64> {
     }
     for m in 0..k {
         vias[(m + 1) % k].clone().connect(fins[(m + 2) % k].clone(), None);
+    }
+    // gate "pr" of m_i -> gate "pin" of m_{i+1} through a channel whose probe panics on every message
+    for m in 0..k {
+        let pr = sim.gate(names[m].as_str(), "pr");
+        let pin = sim.gate(names[(m + 1) % k].as_str(), "pin");
+        let ch = des::net::channel::Channel::new(des::net::channel::ChannelMetrics::new(
+            1_000_000,
+            Duration::from_nanos(1),
+            Duration::ZERO,
+            des::net::channel::ChannelDropBehaviour::Drop,
+        ));
+        pr.clone().connect(pin, Some(ch));
+        pr.channel().expect("channel").attach_probe(PanickingProbe);
     }
     let refs: Vec<ModuleRef> = (0..k)
         .map(|m| sim.get(&ObjectPath::from(names[m].as_str())).expect("module"))
@@ -561,7 +614,7 @@ fn simulate(mods: &[ModCfg], inj: &[(u64, u64, u64, u64)]) -> Vec<u64> {
 
 fn quiet_prog(p: &mut Prog) {
     for a in p.iter_mut() {
-        if matches!(a, Act::Panic | Act::SchedPast(..) | Act::SendPast(..) | Act::RestartPast(..) | Act::PropPanic(..) | Act::PropReenter) {
+        if matches!(a, Act::Panic | Act::SchedPast(..) | Act::SendPast(..) | Act::RestartPast(..) | Act::PropPanic(..) | Act::PropReenter | Act::ProbeSend(..)) {
             *a = Act::Quiet;
         }
     }
